@@ -489,3 +489,117 @@ func ruleFlagImplies(c *Ctx) []Obligation {
 	}
 	return obs
 }
+
+// ---------------------------------------------------------------- DEV.ORDER
+
+func init() {
+	register(&Rule{Name: "DEV.ORDER", Props: []string{"C08", "C05"}, Floor: 1,
+		Doc: "the deviate statements of a deviation are handed to the applier in written order: the ordered list is appended to inside the walk over the deviation's AST list of deviate statements, one entry per statement",
+		Run: ruleDevOrder})
+}
+
+func ruleDevOrder(c *Ctx) []Obligation {
+	const R = "DEV.ORDER"
+	devT := c.Named("yang", "Deviation")
+	if devT == nil {
+		return []Obligation{undecided(R, "deviation AST type", "-", "yang.Deviation not found")}
+	}
+	fDeviate := FieldVar(devT, "Deviate")
+	apply := c.MustFn("yang.(*Entry).ApplyDeviate")
+	con := "the list of deviate statements the applier walks is built statement by statement from the AST"
+	// the function that produces the list the applier ranges over: a repo callee of ApplyDeviate that reads Deviation.Deviate
+	var orderFn *ssa.Function
+	for _, ci := range callsIn(apply, func(ssa.CallInstruction) bool { return true }) {
+		cal := ci.Common().StaticCallee()
+		if cal == nil || !c.isRepoFn(cal) {
+			continue
+		}
+		reads := false
+		eachInstr(cal, func(in ssa.Instruction) {
+			if u, isU := in.(*ssa.UnOp); isU {
+				if _, f, _ := loadedField(u); f == fDeviate && fDeviate != nil {
+					reads = true
+				}
+			}
+		})
+		if reads {
+			orderFn = cal
+		}
+	}
+	if orderFn == nil {
+		// the applier may walk the AST itself
+		eachInstr(apply, func(in ssa.Instruction) {
+			if u, isU := in.(*ssa.UnOp); isU {
+				if _, f, _ := loadedField(u); f == fDeviate && fDeviate != nil {
+					orderFn = apply
+				}
+			}
+		})
+	}
+	if orderFn == nil {
+		return []Obligation{bad(R, con, c.Pos(apply.Pos()), "the applier never consults the deviation's AST list of deviate statements: Entry.Deviate groups them by kind, so their written order is lost (delete-then-add and add-then-delete give different results)")}
+	}
+	if orderFn == apply {
+		return []Obligation{ok(R, con, c.Pos(apply.Pos()), "the applier ranges over Deviation.Deviate itself")}
+	}
+	// the loop over the AST list
+	var astBody []*ssa.BasicBlock
+	var header *ssa.BasicBlock
+	eachInstr(orderFn, func(in ssa.Instruction) {
+		ia, isI := in.(*ssa.IndexAddr)
+		if !isI {
+			return
+		}
+		if _, f, _ := loadedField(ia.X); f == fDeviate {
+			header = loopHeaderOf(ia.Block())
+		}
+	})
+	if header == nil {
+		return []Obligation{bad(R, con, c.Pos(orderFn.Pos()), "the AST list of deviate statements is read but not walked element by element")}
+	}
+	for _, b := range orderFn.Blocks {
+		if b != header && header.Dominates(b) && blockReaches(b, header, nil) {
+			astBody = append(astBody, b)
+		}
+	}
+	inAST := map[*ssa.BasicBlock]bool{}
+	for _, b := range astBody {
+		inAST[b] = true
+	}
+	// appends whose result can be what is returned on the path through the AST loop
+	okAppend, badAppend := false, ""
+	for _, b := range orderFn.Blocks {
+		r, isR := b.Instrs[len(b.Instrs)-1].(*ssa.Return)
+		if !isR || len(r.Results) != 1 || !header.Dominates(b) && !blockReaches(header, b, nil) {
+			continue
+		}
+		if !blockReaches(header, b, nil) {
+			continue // the fallback without an AST node
+		}
+		backSlice(resolveSpill(r.Results[0], r), func(x ssa.Value) bool {
+			call, isC := x.(*ssa.Call)
+			if !isC {
+				return true
+			}
+			if bi, isB := call.Call.Value.(*ssa.Builtin); isB && bi.Name() == "append" {
+				if inAST[call.Block()] {
+					okAppend = true
+				} else if blockReaches(header, call.Block(), nil) && !inAST[call.Block()] {
+					// an append after the AST loop (grouped by kind) on the path with an AST node
+					if loopHeaderOf(call.Block()) != nil {
+						badAppend = c.InstrPos(call)
+					}
+				}
+			}
+			return true
+		})
+	}
+	switch {
+	case okAppend && badAppend == "":
+		return []Obligation{ok(R, con, c.InstrPos(header.Instrs[0]), "every entry of the returned list is appended inside the walk over Deviation.Deviate")}
+	case badAppend != "":
+		return []Obligation{bad(R, con, badAppend, "entries are appended to the returned list in a loop other than the walk over the AST's deviate statements: statements of one kind are pulled together, so interleaved add/delete/replace statements are applied out of their written order")}
+	default:
+		return []Obligation{bad(R, con, c.InstrPos(header.Instrs[0]), "nothing is appended to the returned list inside the walk over the AST's deviate statements")}
+	}
+}
